@@ -3,7 +3,7 @@
    SigSafe.v, SigQuiesce.v; Print Assumptions follows each. *)
 From Coq Require Import List NArith Bool.
 Import ListNotations.
-Require Import Util SigCore SigLemmas SigInv SigSafe SigSpec SigQuiesce SigExtra.
+Require Import Util SigCore SigLemmas SigInv SigSafe SigSpec SigQuiesce SigExtra SigShared.
 Local Open Scope N_scope.
 
 Theorem C07_functor_held_only_by_live_slot_or_connected_element : S_functor_holders.
@@ -24,3 +24,18 @@ Print Assumptions C07_teardown_complete.
 Theorem C07_shared_object_lifetime : S_shared_trackable_lifetime.
 Proof. exact shared_trackable_lifetime_partial. Qed.
 Print Assumptions C07_shared_object_lifetime.
+
+(* the side condition of the previous theorem (distinct keys) holds along every history, so the
+   lifetime rule holds after every operation of every program *)
+Theorem C07_shared_keys_distinct : S_shared_keys_distinct.
+Proof. exact shared_keys_distinct. Qed.
+Print Assumptions C07_shared_keys_distinct.
+
+Theorem C07_shared_object_lifetime_every_history : S_shared_trackable_lifetime_history.
+Proof. exact shared_trackable_lifetime_history. Qed.
+Print Assumptions C07_shared_object_lifetime_every_history.
+
+(* between operations nothing a functor co-owned is alive without an owner *)
+Theorem C07_no_orphan_between_operations : S_no_orphan_at_rest.
+Proof. exact no_orphan_at_rest. Qed.
+Print Assumptions C07_no_orphan_between_operations.
